@@ -248,9 +248,12 @@ fn replay(input: &str, output: &str, scratch: &str) -> i32 {
                             t.nontrivial.insert(format!("{}|{}|{}", v["row"], dir, v["cls"]));
                         }
                         if let Some(clauses) = judge(&v["outs"], Some(n >= 1), &inp, &out) {
+                            // contradicts the reference: does it equal the prediction of the applicable deviation switch?
+                            let dev = v["dev"].as_str().unwrap_or("");
+                            let deviation = if !dev.is_empty() && judge(&v["douts"], Some(n >= 1), &inp, &out).is_none() { json!([dev]) } else { Value::Null };
                             t.fails.push(json!({"t":"case","what":"outcome","def":def,"ctx":kind,"dir":dir,"row":v["row"],"cls":v["cls"],"mask":v["mask"],
                                 "pt":v["pt"],"input":show(&inp),"output":show(&out),"count":n,"observed":abstract_of(&inp, &out),
-                                "admissible":v["outs"],"clauses":clauses}));
+                                "admissible":v["outs"],"clauses":clauses,"deviation":deviation}));
                         }
                     }
                 }
@@ -283,52 +286,71 @@ fn replay(input: &str, output: &str, scratch: &str) -> i32 {
                         Err(msg) => { fail(json!({"what":"panic","msg":msg,"clauses":["panic"],"inputs":inputs.iter().map(show).collect::<Vec<_>>()}), &mut t); continue; }
                         Ok(n) => n,
                     };
-                    let lo = v["lo"].as_u64().unwrap() as usize;
-                    let hi = v["hi"].as_u64().unwrap() as usize;
                     if n > inputs.len() {
                         fail(json!({"what":"count","count":n,"clauses":["more successes than tuples"]}), &mut t);
-                    } else if n < lo || n > hi {
-                        let c = if n < lo { "count below the number of tuples that must be counted" } else { "count above the number of tuples that may be counted" };
-                        fail(json!({"what":"count","count":n,"lo":lo,"hi":hi,"clauses":[c],
-                            "inputs":inputs.iter().map(show).collect::<Vec<_>>(),"outputs":data.iter().map(show).collect::<Vec<_>>()}), &mut t);
                     }
-                    for (k, m) in members.iter().enumerate() {
-                        let outs = if ty == "set" { m["outs"].clone() } else { json!([{"el":m["el"],"sn":m["sn"]}]) };
-                        if let Some(clauses) = judge(&outs, None, &inputs[k], &data[k]) {
-                            fail(json!({"what":"outcome","member":k + 1,"cls":m["cls"],"mask":m["mask"],"pt":m["pt"],"input":show(&inputs[k]),"output":show(&data[k]),
-                                "observed":abstract_of(&inputs[k], &data[k]),"admissible":outs,"clauses":clauses,"count":n}), &mut t);
-                        }
-                    }
+                    // the observed step counts (pipelines): in execution order, skipped flags
+                    let field = |e: &geodesy::verif::Event, k: &str| e.fields.iter().find(|f| f.0 == k).map(|f| f.1.clone()).unwrap_or_default();
+                    let nsteps = v["steps"].as_array().map(|a| a.len()).unwrap_or(0);
+                    let order: Vec<usize> = if dir == "F" { (0..nsteps).collect() } else { (0..nsteps).rev().collect() };
                     if ty == "pipe" {
                         t.step_events += events.len();
-                        let steps = v["steps"].as_array().unwrap();
-                        let field = |e: &geodesy::verif::Event, k: &str| e.fields.iter().find(|f| f.0 == k).map(|f| f.1.clone()).unwrap_or_default();
-                        if events.len() != steps.len() {
-                            fail(json!({"what":"steps","clauses":["number of step events differs from the number of steps"],"events":events.len(),"steps":steps.len()}), &mut t);
+                        if events.len() != nsteps {
+                            fail(json!({"what":"steps","clauses":["number of step events differs from the number of steps"],"events":events.len(),"steps":nsteps}), &mut t);
                             continue;
                         }
-                        // the hook reports steps in execution order
-                        let order: Vec<usize> = if dir == "F" { (0..steps.len()).collect() } else { (0..steps.len()).rev().collect() };
-                        let mut executed: Vec<usize> = vec![];
-                        for (e, &si) in events.iter().zip(order.iter()) {
-                            let s = &steps[si];
-                            let skipped = field(e, "skipped") == "true";
-                            if skipped != s["skipped"].as_bool().unwrap_or(false) {
-                                fail(json!({"what":"steps","step":si + 1,"clauses":["step skipped/executed contrary to its omit_* modifier"]}), &mut t);
-                                continue;
-                            }
-                            if skipped { continue; }
-                            let c: usize = field(e, "count").parse().unwrap_or(usize::MAX);
-                            executed.push(c);
-                            let (slo, shi) = (s["lo"].as_u64().unwrap() as usize, s["hi"].as_u64().unwrap() as usize);
-                            if c < slo || c > shi {
-                                fail(json!({"what":"stepcount","step":si + 1,"stepdef":field(e, "def"),"count":c,"lo":slo,"hi":shi,
-                                    "clauses":[format!("step {} count outside the admissible range", field(e, "name"))]}), &mut t);
-                            }
-                        }
+                        let executed: Vec<usize> = events.iter().filter(|e| field(e, "skipped") != "true").map(|e| field(e, "count").parse().unwrap_or(usize::MAX)).collect();
                         let want = executed.iter().copied().min().unwrap_or(inputs.len());
                         if n != want {
                             fail(json!({"what":"mincount","count":n,"stepcounts":executed,"clauses":["pipeline count is not the minimum over its executed steps"]}), &mut t);
+                        }
+                    }
+                    // everything that depends on the prediction: once against the reference, and - if that fails and
+                    // deviation switches apply - against the deviated prediction
+                    let check = |deviated: bool| -> Vec<Value> {
+                        let mut out: Vec<Value> = vec![];
+                        let key = |k: &str| if deviated { format!("d{k}") } else { k.to_string() };
+                        let lo = v[key("lo").as_str()].as_u64().unwrap() as usize;
+                        let hi = v[key("hi").as_str()].as_u64().unwrap() as usize;
+                        if n <= inputs.len() && (n < lo || n > hi) {
+                            let c = if n < lo { "count below the number of tuples that must be counted" } else { "count above the number of tuples that may be counted" };
+                            out.push(json!({"what":"count","count":n,"lo":lo,"hi":hi,"clauses":[c],
+                                "inputs":inputs.iter().map(show).collect::<Vec<_>>(),"outputs":data.iter().map(show).collect::<Vec<_>>()}));
+                        }
+                        for (k, m) in members.iter().enumerate() {
+                            let outs = if ty == "set" { m[key("outs").as_str()].clone() } else { json!([{"el":m[key("el").as_str()],"sn":m[key("sn").as_str()]}]) };
+                            if let Some(clauses) = judge(&outs, None, &inputs[k], &data[k]) {
+                                out.push(json!({"what":"outcome","member":k + 1,"cls":m["cls"],"mask":m["mask"],"pt":m["pt"],"input":show(&inputs[k]),"output":show(&data[k]),
+                                    "observed":abstract_of(&inputs[k], &data[k]),"admissible":outs,"clauses":clauses,"count":n}));
+                            }
+                        }
+                        if ty == "pipe" {
+                            let steps = v[key("steps").as_str()].as_array().unwrap();
+                            for (e, &si) in events.iter().zip(order.iter()) {
+                                let s = &steps[si];
+                                let skipped = field(e, "skipped") == "true";
+                                if skipped != s["skipped"].as_bool().unwrap_or(false) {
+                                    out.push(json!({"what":"steps","step":si + 1,"clauses":["step skipped/executed contrary to its omit_* modifier"]}));
+                                    continue;
+                                }
+                                if skipped { continue; }
+                                let c: usize = field(e, "count").parse().unwrap_or(usize::MAX);
+                                let (slo, shi) = (s["lo"].as_u64().unwrap() as usize, s["hi"].as_u64().unwrap() as usize);
+                                if c < slo || c > shi {
+                                    out.push(json!({"what":"stepcount","step":si + 1,"stepdef":field(e, "def"),"count":c,"lo":slo,"hi":shi,
+                                        "clauses":[format!("step {} count outside the admissible range", field(e, "name"))]}));
+                                }
+                            }
+                        }
+                        out
+                    };
+                    let reference = check(false);
+                    if !reference.is_empty() {
+                        let devs = v["devs"].as_array().cloned().unwrap_or_default();
+                        let explained = !devs.is_empty() && check(true).is_empty();
+                        for mut x in reference {
+                            x["deviation"] = if explained { Value::Array(devs.clone()) } else { Value::Null };
+                            fail(x, &mut t);
                         }
                     }
                 }
@@ -345,6 +367,216 @@ fn replay(input: &str, output: &str, scratch: &str) -> i32 {
         "nontrivial":t.nontrivial.len(),"rows":t.rows.len(),"step_events":t.step_events,"mismatching":t.fails.len(),"uncovered_builtins":uncovered})).unwrap();
     println!("fail: {} cases, {} sets, {} pipelines, {} evaluations, {} mismatches", t.cases, t.sets, t.pipes, world.evals, t.fails.len());
     if t.fails.is_empty() { 0 } else { 1 }
+}
+
+// ---- C01: round trips over the configuration x point lattice --------------------------
+
+fn wrap_pi(x: f64) -> f64 {
+    let two = 2.0 * std::f64::consts::PI;
+    let mut y = x % two;
+    if y > std::f64::consts::PI { y -= two; }
+    if y < -std::f64::consts::PI { y += two; }
+    y
+}
+
+/// ground distance between two geographical tuples (lon, lat in radians, h in metres)
+fn geo_residual(a: f64, p: [f64; 3], q: [f64; 3]) -> f64 {
+    let dlat = (q[1] - p[1]) * a;
+    let dlon = wrap_pi(q[0] - p[0]) * a * p[1].cos();
+    let dh = q[2] - p[2];
+    (dlat * dlat + dlon * dlon + dh * dh).sqrt()
+}
+
+fn iso_to_deg(v: f64, seconds: bool) -> f64 {
+    let s = if v.is_sign_negative() { -1.0 } else { 1.0 };
+    let x = v.abs();
+    if seconds {
+        let d = (x / 10000.0).floor();
+        let m = ((x - d * 10000.0) / 100.0).floor();
+        let sec = x - d * 10000.0 - m * 100.0;
+        s * (d + m / 60.0 + sec / 3600.0)
+    } else {
+        let d = (x / 100.0).floor();
+        let m = x - d * 100.0;
+        s * (d + m / 60.0)
+    }
+}
+
+/// residual on the ground, in metres, between a tuple and what came back, by kind of tuple
+fn residual(kind: &str, a: f64, unit: f64, p: &Coor4D, q: &Coor4D, scale: f64) -> f64 {
+    let r = |x: f64| x.to_radians();
+    match kind {
+        "geo" => geo_residual(a, [p[0], p[1], p[2]], [q[0], q[1], q[2]]),
+        "lonlat_deg" => geo_residual(a, [r(p[0]), r(p[1]), p[2]], [r(q[0]), r(q[1]), q[2]]),
+        "latlon_deg" => geo_residual(a, [r(p[1]), r(p[0]), p[2]], [r(q[1]), r(q[0]), q[2]]),
+        "lonlat_gon" => geo_residual(a, [r(p[0] * 0.9), r(p[1] * 0.9), p[2]], [r(q[0] * 0.9), r(q[1] * 0.9), q[2]]),
+        "iso_dm" | "iso_dms" => {
+            let sec = kind == "iso_dms";
+            geo_residual(a, [r(iso_to_deg(p[1], sec)), r(iso_to_deg(p[0], sec)), p[2]], [r(iso_to_deg(q[1], sec)), r(iso_to_deg(q[0], sec)), q[2]])
+        }
+        "xyz" => ((q[0] - p[0]).powi(2) + (q[1] - p[1]).powi(2) + (q[2] - p[2]).powi(2)).sqrt(),
+        "lin" => ((q[0] - p[0]).powi(2) + (q[1] - p[1]).powi(2) + (q[2] - p[2]).powi(2)).sqrt() * unit,
+        // projected metres, brought back to the ground with the local linear scale of the projection
+        "prj" => ((q[0] - p[0]).powi(2) + (q[1] - p[1]).powi(2)).sqrt() / scale + (q[2] - p[2]).abs(),
+        // origin (lat lon, degrees), azimuth (degrees), distance (metres)
+        "geodesic" => {
+            let pos = geo_residual(a, [r(p[1]), r(p[0]), 0.], [r(q[1]), r(q[0]), 0.]);
+            let azi = wrap_pi(r(q[2] - p[2])) * p[3];
+            (pos * pos + azi * azi + (q[3] - p[3]).powi(2)).sqrt()
+        }
+        // two points (lat lon, degrees)
+        "pair_deg" => {
+            let a1 = geo_residual(a, [r(p[1]), r(p[0]), 0.], [r(q[1]), r(q[0]), 0.]);
+            let a2 = geo_residual(a, [r(p[3]), r(p[2]), 0.], [r(q[3]), r(q[2]), 0.]);
+            a1.hypot(a2)
+        }
+        // exact: the numbers themselves must come back (the largest difference is reported)
+        _ => (0..4).map(|i| if p[i] == q[i] { 0.0 } else { (q[i] - p[i]).abs().max(f64::MIN_POSITIVE) }).fold(0.0, f64::max),
+    }
+}
+
+#[derive(Default)]
+struct Group {
+    n: usize,
+    fails: usize,
+    max: f64,
+    worst: Value,
+    ellps: std::collections::BTreeSet<String>,
+    lines: usize,
+}
+
+fn roundtrip(input: &str, output: &str, scratch: &str) -> i32 {
+    quiet_panics();
+    let in_path = std::path::absolute(input).unwrap();
+    let out_path = std::path::absolute(output).unwrap();
+    setup_scratch(scratch);
+    let f = std::fs::File::open(in_path).expect("cannot open input");
+    let mut w = std::io::BufWriter::new(std::fs::File::create(out_path).expect("cannot create output"));
+    let mut world = World::new();
+    let mut groups: BTreeMap<(String, String, String, String), Group> = BTreeMap::new();
+    let mut per_fam: BTreeMap<String, (usize, usize, f64, usize)> = BTreeMap::new(); // cases, fails, max residual, configurations
+    let mut spec_ellps: std::collections::BTreeSet<String> = Default::default();
+    let mut total = 0usize;
+    let mut failing = 0usize;
+    for line in std::io::BufReader::new(f).lines() {
+        let line = line.unwrap();
+        if line.trim().is_empty() { continue; }
+        let v: Value = serde_json::from_str(&line).expect("bad json");
+        let g = |k: &str| v[k].as_str().unwrap_or("").to_string();
+        let (fam, def, shape, ellps, kind, dk, ik, via) = (g("fam"), g("def"), g("shape"), g("ellps"), g("ctx"), g("dk"), g("ik"), g("via"));
+        let tol = v["tol_um"].as_f64().unwrap() * 1e-6;
+        let unit: f64 = g("unit").parse().unwrap_or(1.0);
+        if !ellps.is_empty() { spec_ellps.insert(ellps.clone()); }
+        let pts = v["pts"].as_array().unwrap();
+        let fam_e = per_fam.entry(fam.clone()).or_insert((0, 0, 0.0, 0));
+        fam_e.3 += 1;
+        fam_e.0 += 2 * pts.len();
+        total += 2 * pts.len();
+        let note = |order: &str, what: &str, res: f64, detail: Value, groups: &mut BTreeMap<(String, String, String, String), Group>, w: &mut std::io::BufWriter<std::fs::File>| {
+            let gr = groups.entry((fam.clone(), shape.clone(), order.to_string(), what.to_string())).or_default();
+            gr.fails += 1;
+            if !ellps.is_empty() { gr.ellps.insert(ellps.clone()); }
+            let line = json!({"fam":fam,"def":def,"shape":shape,"ellps":ellps,"ctx":kind,"order":order,"what":what,"residual_m":if res.is_finite() { json!(res) } else { json!(format!("{res}")) },
+                              "tol_m":tol,"detail":detail});
+            if res.is_nan() || res > gr.max || gr.worst.is_null() { if !res.is_nan() { gr.max = gr.max.max(res); } gr.worst = line.clone(); }
+            if gr.lines < 20 { gr.lines += 1; writeln!(w, "{}", line).unwrap(); }
+        };
+        // the semimajor axis that turns angles into metres on the ground
+        let a = if ellps.is_empty() { 6378137.0 } else {
+            match guarded(|| Ellipsoid::named(&ellps)) {
+                Ok(Ok(e)) => e.semimajor_axis(),
+                other => {
+                    failing += 2 * pts.len(); fam_e.1 += 2 * pts.len();
+                    let what = if other.is_err() { "panic" } else { "opfail" };
+                    note("-", what, f64::NAN, json!({"msg":format!("Ellipsoid::named: {other:?}"),"cases":2 * pts.len()}), &mut groups, &mut w);
+                    continue;
+                }
+            }
+        };
+        let h = match world.op(&kind, &def) {
+            Ok(h) => h,
+            Err(msg) => {
+                failing += 2 * pts.len(); fam_e.1 += 2 * pts.len();
+                let what = if msg.starts_with("panic") { "panic" } else { "opfail" };
+                note("-", what, f64::NAN, json!({"msg":msg,"cases":2 * pts.len()}), &mut groups, &mut w);
+                continue;
+            }
+        };
+        let mut start: Vec<Coor4D> = pts.iter().map(point_from).collect();
+        if !via.is_empty() {
+            let hv = world.op("minimal", &via).expect("via operator");
+            world.apply("minimal", hv, "F", &mut start).expect("via apply");
+        }
+        let n = start.len();
+        let run = |world: &mut World, dir: &str, data: &Vec<Coor4D>| -> Result<Vec<Coor4D>, String> {
+            let mut d = data.clone();
+            world.apply(&kind, h, dir, &mut d).map(|_| d)
+        };
+        // forward, then inverse
+        let fwd = run(&mut world, "F", &start);
+        let back = fwd.clone().and_then(|d| run(&mut world, "I", &d));
+        // inverse, then forward, from the forward image
+        let again = back.clone().and_then(|d| run(&mut world, "F", &d));
+        let (fwd, back, again) = match (fwd, back, again) {
+            (Ok(a1), Ok(a2), Ok(a3)) => (a1, a2, a3),
+            (x, y, z) => {
+                failing += 2 * n; fam_e.1 += 2 * n;
+                let msg = [x.err(), y.err(), z.err()].into_iter().flatten().next().unwrap_or_default();
+                note("-", "panic", f64::NAN, json!({"msg":msg,"cases":2 * n}), &mut groups, &mut w);
+                continue;
+            }
+        };
+        // local linear scale of a projection (finite differences of the forward mapping), for residuals in projected metres
+        let mut scale = vec![1.0f64; n];
+        if ik == "prj" && dk == "geo" {
+            let d = 1e-6;
+            let north: Vec<Coor4D> = start.iter().map(|p| { let mut q = *p; q[1] += if p[1] > 0. { -d } else { d }; q }).collect();
+            let east: Vec<Coor4D> = start.iter().map(|p| { let mut q = *p; q[0] += d; q }).collect();
+            if let (Ok(fnorth), Ok(feast)) = (run(&mut world, "F", &north), run(&mut world, "F", &east)) {
+                for i in 0..n {
+                    let kn = (fnorth[i][0] - fwd[i][0]).hypot(fnorth[i][1] - fwd[i][1]) / (d * a);
+                    let c = start[i][1].cos();
+                    let ke = if c > 1e-6 { (feast[i][0] - fwd[i][0]).hypot(feast[i][1] - fwd[i][1]) / (d * a * c) } else { 0.0 };
+                    let k = kn.max(ke);
+                    scale[i] = if k.is_finite() && k > 1e-3 { k } else { 1.0 };
+                }
+            }
+        }
+        for i in 0..n {
+            for (order, from, mid, to, kd) in [("FI", &start[i], &fwd[i], &back[i], dk.as_str()), ("IF", &fwd[i], &back[i], &again[i], ik.as_str())] {
+                let gr = groups.entry((fam.clone(), shape.clone(), order.to_string(), "ok".to_string())).or_default();
+                gr.n += 1;
+                let nan = |t: &Coor4D| t.0[..3].iter().any(|x| x.is_nan());
+                let detail = |res: f64| json!({"pt":pts[i],"from":show(from),"via":show(mid),"back":show(to),"residual_m":if res.is_finite() { json!(res) } else { json!(format!("{res}")) }});
+                if nan(mid) || nan(to) || (order == "IF" && nan(from)) {
+                    failing += 1; fam_e.1 += 1;
+                    note(order, "nan", f64::NAN, detail(f64::NAN), &mut groups, &mut w);
+                    continue;
+                }
+                let res = residual(kd, a, unit, from, to, if order == "IF" { scale[i] } else { 1.0 });
+                if res.is_finite() { fam_e.2 = fam_e.2.max(res); }
+                if !(res <= tol) {
+                    failing += 1; fam_e.1 += 1;
+                    note(order, "residual", res, detail(res), &mut groups, &mut w);
+                }
+            }
+        }
+        // keep the registries small
+        if world.handles.len() > 500 { world = World::new(); }
+    }
+    for ((fam, shape, order, what), gr) in groups.iter() {
+        if what == "ok" { continue; }
+        let cases = groups.get(&(fam.clone(), shape.clone(), order.clone(), "ok".to_string())).map(|g| g.n).unwrap_or(0);
+        writeln!(w, "{}", json!({"group":true,"fam":fam,"shape":shape,"order":order,"what":what,"failing":gr.fails,"of":cases,
+            "max_residual_m":gr.max,"ellps":gr.ellps.iter().take(60).collect::<Vec<_>>(),"worst":gr.worst})).unwrap();
+    }
+    let code_ellps: Vec<&str> = geodesy::verif::ellipsoid_names();
+    let uncovered: Vec<&str> = code_ellps.iter().copied().filter(|n| !spec_ellps.contains(*n)).collect();
+    let fams: BTreeMap<String, Value> = per_fam.iter().map(|(k, v)| (k.clone(), json!({"cases":v.0,"failing":v.1,"max_residual_m":v.2,"configurations":v.3}))).collect();
+    writeln!(w, "{}", json!({"summary":true,"cases":total,"failing":failing,"evaluations":world.evals,"families":fams,
+        "ellipsoids_in_code_not_enumerated":uncovered})).unwrap();
+    println!("roundtrip: {} cases, {} failing", total, failing);
+    if failing == 0 { 0 } else { 1 }
 }
 
 fn eval(a: &[String]) -> i32 {
@@ -381,6 +613,7 @@ fn main() {
     let a: Vec<String> = std::env::args().collect();
     let code = match a.get(1).map(|s| s.as_str()) {
         Some("replay") if a.len() >= 5 => replay(&a[2], &a[3], &a[4]),
+        Some("roundtrip") if a.len() >= 5 => roundtrip(&a[2], &a[3], &a[4]),
         Some("eval") if a.len() >= 6 => eval(&a[2..]),
         _ => {
             eprintln!("usage: gvh_fail replay <in> <out> <scratchdir>\n       gvh_fail roundtrip <in> <out> <scratchdir>\n       gvh_fail eval <minimal|plain> <def> <F|I> x y z t [x y z t ...]");
